@@ -26,6 +26,25 @@ func H_C18_usage() {
 	verifnd.Reach("C18.usage")
 }
 
+// H_C18_usage_exact: Usage is the percentage used/total — decided against exact integer
+// arithmetic at half-percent thresholds k/2 (k = 0..200; thresholds like 95.5 are configurable):
+// ratio >= k/2 implies Usage >= k/2, ratio < k/2 implies Usage <= k/2 (the second only with <=:
+// a correctly rounded quotient may round up to the threshold). Bound: used <= total < 2^bits.
+func H_C18_usage_exact() {
+	bits := uint(verifnd.Param("bits", 20))
+	used := verifnd.Uint64("used")
+	total := verifnd.Uint64("total")
+	verifnd.Assume(verifnd.And(total > 0, total < 1<<bits))
+	verifnd.Assume(used <= total)
+	ks := []uint64{1, 100, 181, 191, 199, 200}
+	k := ks[verifnd.Choose("k", len(ks))]
+	u := nodestate.DiskState{Used: used, Total: total}.Usage()
+	th := float64(k) / 2
+	verifnd.Assert(verifnd.Implies(200*used >= k*total, u >= th), "usage.exact.at-least")
+	verifnd.Assert(verifnd.Implies(200*used < k*total, u <= th), "usage.exact.at-most")
+	verifnd.Reach("C18.usage.exact")
+}
+
 // H_C18_decision: one call of repairReadOnlyOnMaster from an arbitrary situation.
 func H_C18_decision() {
 	nrep := verifnd.Choose("replicas", verifnd.Param("max_replicas", 2)+1)
